@@ -200,16 +200,18 @@ def capture_shared_step(model, batch):
 def unit_pomo(item):
     from rl4co.models.zoo import POMO
 
-    _, skey, B, S, seed = item
+    _, skey, B, S, seed = item[:5]
+    scale = item[5] if len(item) > 5 else None
     p = Partial()
     spec, env, batch, ids = batch_of(skey, B, seed)
     policy = make("am_inst", env, 0, train=True)
-    model = POMO(env, policy, num_starts=S, num_augment=8)
+    model = POMO(env, policy, num_starts=S, num_augment=8, reward_scale=scale)
     params = list(policy.parameters())
-    cfg = f"pomo|B={B}|S={S}"
+    cfg = f"pomo|B={B}|S={S}|scale={scale}"
+    ref_scaler = RefScaler(scale)
     env_name = skey.partition(":")[0]
     for step in range(2):
-        rec = dict(kind="pomo", spec=skey, B=B, S=S, step=step, instances=ids)
+        rec = dict(kind="pomo", spec=skey, B=B, S=S, scale=scale, step=step, instances=ids)
         try:
             out = capture_shared_step(model, batch.clone())
         except Exception as e:  # noqa: BLE001
@@ -224,9 +226,10 @@ def unit_pomo(item):
         R = r.reshape(S, B).t()  # rows are laid out (start, batch)
         LL = ll.reshape(S, B).t()
         adv = R - R.mean(dim=1, keepdim=True)
-        ref_loss = -(adv * LL).mean()
         if float(adv.sum(dim=1).abs().max()) > 1e-5:
             raise RuntimeError("reference advantages do not sum to zero")
+        adv = ref_scaler(adv)  # the advantage scaler sees every value of the [batch, starts] advantage
+        ref_loss = -(adv * LL).mean()
         bl = out["bl_val"]
         if isinstance(bl, torch.Tensor) and tuple(bl.shape) not in ((B, 1), (B, S)):
             p.violation(sig(env_name, cfg, "baseline_shape", f"step={step}"), rec, f"POMO: shared baseline has shape {tuple(bl.shape)} for B={B}, S={S}")
@@ -398,6 +401,7 @@ def main(tier):
         for B in (1, 2, 3):
             for S in (2, 3):
                 items.append(("pomo", skey, B, S, seed))
+                items.append(("pomo", skey, B, S, seed, "norm"))
         for B in (1, 2):
             for A in (1, 2, 3):
                 for S in (1, 2, 3):
@@ -422,7 +426,7 @@ def replay(rec):
     if k == "reinforce":
         p = unit(("reinforce", rec["spec"], rec["baseline"], rec["scale"], rec["B"], 0))
     elif k == "pomo":
-        p = unit(("pomo", rec["spec"], rec["B"], rec["S"], 0))
+        p = unit(("pomo", rec["spec"], rec["B"], rec["S"], 0, rec.get("scale")))
     elif k == "symnco":
         p = unit(("symnco", rec["spec"], rec["B"], rec["A"], rec["S"], 0))
     else:
